@@ -533,6 +533,23 @@ class Campaign:
         return r
 
     @_timed
+    @_timed
+    def mc_known_phase(self, spec, cfg, prop, finding_key, label, **kw):
+        """a configuration that TLC is EXPECTED to refute: the counterexample is the design-level form of a recorded known finding.
+        If TLC no longer refutes it the specification and the finding have drifted apart (machinery failure, not a verdict)."""
+        r = vlib.tlc(spec, cfg, extra=["-noGenerateSpecTE"], **kw)
+        viol = r["violated"] or ("temporal" if "Temporal property" in r["out"] and "was violated" in r["out"] else None)
+        hit = bool(viol) and (prop in r["out"])
+        self.stats.setdefault("mc_known", []).append({"spec": spec, "cfg": cfg, "property_refuted": prop, "refuted": hit, "what": label,
+                                                      "known_finding": finding_key, "states": r["states"], "distinct": r["distinct"]})
+        self.stats["states"] += r["distinct"]
+        if hit:
+            f = [f for f in self.kf.get("findings", []) if f.get("key") == finding_key or f.get("id") == finding_key]
+            if f:
+                self.known.append({"finding": f[0], "cfg": {"spec": spec, "cfg": cfg}, "model": (spec, cfg)})
+        else:
+            self.machinery.append({"property": self.pid, "what": "%s/%s no longer refutes %s (known finding %s): %s" % (spec, cfg, prop, finding_key, r["error"] or "holds")})
+
     def probe_phase(self, spec, cfg, probes, **kw):
         """non-vacuity: each probe is an invariant stating that a scenario never happens; TLC must VIOLATE it (the scenario is reachable
         in the configuration that is model checked); a probe that holds means the configuration does not exercise the scenario"""
@@ -596,6 +613,7 @@ class Campaign:
                "known_finding_hits": len(self.known), "other_property_failures": len(self.other),
                "driver_lines_validated": self.stats.get("driver_lines", 0), "conformance_divergences": self.stats.get("divergences", 0),
                "model_checking_runs": self.stats.get("mc", []), "model_checking_reachability_probes": self.stats.get("mc_probes", []),
+               "design_level_reproduction_of_known_findings": self.stats.get("mc_known", []),
                "tlc_behaviours_replayed_in_real_code": self.stats.get("replay", []), "phase_wall_s": self.stats.get("phase_wall_s", []), "single_delay_sweep_runs": self.stats.get("sweep_runs", 0),
                "conformance_divergence_kinds": self.stats.get("divergence_kinds", {}),
                "micro_model_runs_on_real_code": self.stats.get("micro_runs", 0), "micro_model_distinct_interleavings": self.stats.get("micro_distinct", 0),
